@@ -103,7 +103,10 @@ CURATED = ["title:(foo bar)^", "title:foo^ bar", "title:(foo bar)^^2", "t:(a b)~
            "a &&\tb\n||  c^2 ", "x:(y:(z:(w OR v) AND u)^2 AND t)~ ", "NOT  -  + a ", " ( ( a ) ) ", "a^ ^2", "TO TO TO", "[TO TO TO]", "a:TO",
            # escapes inside field names, a byte order mark, backslash + line break inside a term (refused today: must stay consistent if ever accepted)
            "first\\ name:x", "a\\:b:c", "outer:(in\\(ner\\):z)", "f\\*g:(h i)^2", "\ufeffab cd", "\ufeff f:x AND y", "x:(foo\\\nbar baz) OR c", "[a\\\nb TO c]",
-           "foo\\\nbar"]
+           "foo\\\nbar",
+           # keywords in another case are plain words; decomposed / compatibility characters, zero-width characters and escaped blanks are data
+           "foo and bar", "not foo", "[a to b]", "a Or b AnD c", "f:(x or y) AND to", "cafe\u0301 \u212b \u2126", "f:\"e\u0301\" /e\u0301+/", "a\u200bb \u1100\u1161",
+           "foo\\  bar", "f\\ :x", "a\\\t AND b", "TO ^2 TO~ a", "x^2 ^3 ^ y"]
 
 
 def work(item):
